@@ -262,7 +262,7 @@ impl Engine for E {
             "C12" => {
                 p.cases = if quick { 60 } else { 900 };
                 p.timeout_s = if quick { 900 } else { 7200 };
-                p.rule = "case kind = idx mod 10: encrypt/decrypt of a boundary-weighted amount with ciphertext structure recomputed from the returned randomness (x3), aggregation of two encrypted amounts whose chunk sums stay below 2^32 (x2), encrypted transfer balance/amount pair with honest verification, conservation by decryption, exceeding amounts, and 7-10 perturbations (x2), the same for secret-to-public transfers (x2), chunk model (x1); evaluations = comparisons with integer arithmetic / expected verifier verdicts; distinct_nontrivial = distinct cases by hash of the produced ciphertext / transfer data".into();
+                p.rule = "case kind = idx mod 10: encrypt/decrypt of a boundary-weighted amount with ciphertext structure recomputed from the returned randomness (x3), aggregation of two encrypted amounts whose chunk sums stay below 2^32 (x2), encrypted transfer balance/amount pair with honest verification, conservation by decryption, exceeding amounts, and 7-10 perturbations (x2), the same for secret-to-public transfers (x2), chunk model and baby-step-giant-step tables of non-power-of-two size (x1); every transfer is additionally verified with each public-key component perturbed separately and with the number of responses of the accounting proof changed; evaluations = comparisons with integer arithmetic / expected verifier verdicts; distinct_nontrivial = distinct cases by hash of the produced ciphertext / transfer data".into();
                 p.assumptions = s(&[
                     "integer arithmetic on u64 and the independently written 2 x 32-bit chunk model are the ground truth for amounts",
                     "group operations plus_point / mul_by_scalar (checked by C20) are used to recompute ciphertext structure",
@@ -326,6 +326,25 @@ impl Engine for E {
                     ("perturb.s2p.before.reencrypted", 21 * m),
                     ("perturb.s2p.proof.spliced", 23 * m),
                     ("perturb.s2p.bitflip.proof", 11 * m),
+                    ("perturb.pk.sender.generator", 38 * m),
+                    ("perturb.pk.sender.key_point", 38 * m),
+                    ("perturb.pk.receiver.generator", 38 * m),
+                    ("perturb.pk.receiver.key_point", 38 * m),
+                    ("perturb.pk.receiver.generator_random", 38 * m),
+                    ("perturb.s2p.pk.generator", 38 * m),
+                    ("perturb.s2p.pk.key_point", 38 * m),
+                    ("perturb.shape.transfer_part.extra_response", 38 * m),
+                    ("perturb.shape.remaining_part.extra_response", 38 * m),
+                    ("perturb.shape.transfer_part.all_dropped", 38 * m),
+                    ("perturb.shape.remaining_part.one_dropped", 38 * m),
+                    ("perturb.s2p.shape.transfer_part.extra_response", 38 * m),
+                    ("perturb.s2p.shape.remaining_part.extra_response", 38 * m),
+                    ("bsgs.discrete_log", 590 * m),
+                    ("bsgs.value.below_m", 190 * m),
+                    ("bsgs.value.at_m", 40 * m),
+                    ("bsgs.value.above_m", 330 * m),
+                    ("bsgs.table.not_power_of_two", 29 * m),
+                    ("bsgs.decrypt_amount", 35 * m),
                     ("chunks.model32", 640 * m),
                     ("chunks.u64_to_chunks", 3_800 * m),
                 ]);
